@@ -6,6 +6,11 @@
 //@ fns: CatchGradualDifficulty::next (Iterator::next)
 //@ bound: unbounded: every number of palpable objects N, every position idx
 //@ clause: for ALL N: pre: invariant. post: Some iff idx < N (values remain); then idx' = idx+1 and the attributes' counted view grows by exactly count[idx] (the i-th value counts exactly the first i objects); else the calculator is unchanged; invariant preserved; every index (count[idx], diff_objects[idx-1]) is in bounds; no arithmetic overflow
+//@ obl: id=U12.catch.nth.verus fn=CatchGradualDifficulty::nth props=C15,C02,C05 tier=quick kind=proof twin=yes pair=U12.catch.protocol.n2
+//@ fns: CatchGradualDifficulty::nth (Iterator::nth)
+//@ bound: unbounded: every number of palpable objects, every position, every n (incl. usize::MAX)
+//@ clause: for ALL N and n: pre: invariant. post: Some iff n < remaining; exactly min(n+1, remaining) values are consumed; the attributes' counted view grows by exactly the deltas of the consumed objects (so the value returned by nth(n) counts the same objects as n+1 calls of next()); invariant preserved; all indices in bounds; no overflow (rewrites R10, R11 and a local verified cmp::min are used)
+//@ assume: R10: slice.iter().skip(S).take(T) visits the elements S, S+1, ... while in range, at most T of them; R11: Option::filter with a constant predicate; `cmp::min` on usize is a local verified definition
 //@ obl: id=U12.catch.len.verus fn=CatchGradualDifficulty::len props=C15,C05 tier=quick kind=proof twin=yes pair=U12.catch.protocol.n1
 //@ fns: CatchGradualDifficulty::len (ExactSizeIterator::len)
 //@ bound: unbounded
@@ -26,6 +31,28 @@ pub struct DifficultyValues { }
 pub uninterp spec fn counted(a: CatchDifficultyAttributes) -> (nat, nat, nat);
 pub uninterp spec fn delta(c: GradualObjectCount) -> (nat, nat, nat);
 pub open spec fn plus(a: (nat, nat, nat), b: (nat, nat, nat)) -> (nat, nat, nat) { (a.0 + b.0, a.1 + b.1, a.2 + b.2) }
+
+/// sum of the count deltas of the palpable objects lo..hi
+pub open spec fn sum_delta(c: Seq<GradualObjectCount>, lo: int, hi: int) -> (nat, nat, nat)
+    decreases hi - lo
+{
+    if hi <= lo { (0, 0, 0) } else { plus(sum_delta(c, lo, hi - 1), delta(c[hi - 1])) }
+}
+proof fn lemma_sum_empty(c: Seq<GradualObjectCount>, lo: int)
+    ensures sum_delta(c, lo, lo) == (0nat, 0nat, 0nat)
+{}
+proof fn lemma_sum_step(c: Seq<GradualObjectCount>, lo: int, hi: int)
+    requires lo < hi
+    ensures sum_delta(c, lo, hi) == plus(sum_delta(c, lo, hi - 1), delta(c[hi - 1]))
+{}
+
+/// std::cmp::min on usize (verified local definition; the extracted code calls `cmp::min`)
+pub mod cmp {
+    use vstd::prelude::*;
+    pub fn min(a: usize, b: usize) -> (r: usize)
+        ensures r == if a <= b { a } else { b }
+    { if a <= b { a } else { b } }
+}
 
 impl CatchDifficultyAttributes {
     #[verifier::external_body]
@@ -77,6 +104,40 @@ impl CatchGradualDifficulty {
                 && counted(final(self).attrs) == plus(counted(old(self).attrs), delta(old(self).count@[old(self).idx as int]))
                 && counted(r.unwrap()) == counted(final(self).attrs),
             r.is_none() ==> final(self).idx == old(self).idx && counted(final(self).attrs) == counted(old(self).attrs),
+*/
+
+/*@extract fn file=src/catch/difficulty/gradual.rs impl=Iterator for=CatchGradualDifficulty name=nth ret=r subst=Self::Item=>CatchDifficultyAttributes
+@spec
+        requires old(self).inv()
+        ensures
+            final(self).inv(),
+            final(self).count@ == old(self).count@,
+            final(self).diff_objects@.len() == old(self).diff_objects@.len(),
+            r.is_some() <==> n < old(self).remaining(),
+            final(self).idx == old(self).idx + (if n < old(self).remaining() { n + 1 } else { old(self).remaining() }),
+            counted(final(self).attrs) == plus(counted(old(self).attrs), sum_delta(old(self).count@, old(self).idx as int, final(self).idx as int)),
+            r.is_some() ==> counted(r.unwrap()) == counted(final(self).attrs),
+@loop 1
+            invariant
+                self.inv(),
+                self.count@ == old(self).count@,
+                self.diff_objects@.len() == old(self).diff_objects@.len(),
+                old(self).idx <= self.idx,
+                self.idx >= 1 || __skip_iter_take == 0,
+                __skip_iter_k + 1 == self.idx || __skip_iter_take == 0,
+                self.idx + (__skip_iter_take - __skip_iter_c) == old(self).idx + take0,
+                __skip_iter_c <= __skip_iter_take,
+                take0 == 0 || old(self).idx + take0 <= old(self).count@.len() - 1,
+                take0 as int == (if n < old(self).remaining() - 1 { n as int } else if old(self).remaining() == 0 { 0 } else { old(self).remaining() - 1 }),
+                counted(self.attrs) == plus(counted(old(self).attrs), sum_delta(old(self).count@, old(self).idx as int, self.idx as int)),
+            decreases __skip_iter_take - __skip_iter_c
+@before 1 `if self.idx == 0 && take > 0 {`
+        let ghost take0 = take;
+        proof { lemma_sum_empty(old(self).count@, old(self).idx as int); }
+@after 2 `self.idx += 1;`
+            proof { lemma_sum_step(old(self).count@, old(self).idx as int, self.idx as int); }
+@after 1 `self.idx += 1;`
+            proof { lemma_sum_step(old(self).count@, old(self).idx as int, self.idx as int); }
 */
 
 /*@extract fn file=src/catch/difficulty/gradual.rs impl=ExactSizeIterator for=CatchGradualDifficulty name=len ret=r
